@@ -99,4 +99,6 @@ def main(tier):
     gfrows.check(rep, 35)
     import baseloops
     baseloops.check(rep, 'UPD', ['ec_encode_data_update_base', 'gf_vect_mad_base', 'gf_vect_mul_base'], 4)
+    import eclayout
+    eclayout.check(rep, 'UPD', ['ec_encode_data_update_base', 'gf_vect_mad_base'], 2, writer=False)
     return rep.finish()
